@@ -284,11 +284,11 @@ def quasi_cases(rng, q):
         ts = enum_templates(size, hole_pool)
         if q and len(ts) > 1500:
             ts = rng.sample(ts, 1500)
-        elif len(ts) > 40000:
-            ts = rng.sample(ts, 40000)
+        elif len(ts) > 8000:
+            ts = rng.sample(ts, 8000)
         temps += ts
     # nested quasiquote levels
-    for _ in range(1500 if q else 30000):
+    for _ in range(1500 if q else 8000):
         temps.append(gen_template(rng, rng.choice([2, 3, 4])))
     # every chain of quasiquote / unquote / unquote-splice (<= 5 links) around a hole, in a list: the level
     # arithmetic at every depth (the template itself sits inside one quasiquote, level 1)
